@@ -19,8 +19,10 @@ import (
 	"strconv"
 	"strings"
 	"testing"
+	"testing/synctest"
 
 	"github.com/influxdata/influxdb/v2/models"
+	"github.com/influxdata/influxdb/v2/pkg/verifrt/vrt"
 	"github.com/influxdata/influxdb/v2/tsdb"
 	"github.com/influxdata/influxdb/v2/tsdb/index/tsi1"
 	"verif/h/vlib"
@@ -760,41 +762,83 @@ type Expect struct {
 	InFlight *Op
 }
 
+// Probe flavours of the recovery checker.
+const (
+	ProbeNone   = ""       // restart + read only
+	ProbeSingle = "single" // then create every series of the universe, read; engine measurement delete of m0 and m1 (series removed from the series file), read
+	ProbeShared = "shared" // the same with index-only drops (series stay in the series file)
+)
+
+// ProbeOps returns the ops the recovery checker performs after its first read.
+func ProbeOps(probe string) []Op {
+	all := Op{Kind: OpCreate, S: []int{0, 1, 2, 3, 4, 5}}
+	switch probe {
+	case ProbeSingle:
+		return []Op{all, {Kind: OpDropM, M: "m0"}, {Kind: OpDropM, M: "m1"}}
+	case ProbeShared:
+		return []Op{all, {Kind: OpDropI, S: []int{0, 1, 2, 3}}, {Kind: OpDropI, S: []int{4, 5}}}
+	}
+	return nil
+}
+
 // CheckRecovery opens dir with the real code, reads every query and compares with the acknowledged model;
 // with an op in flight the view must equal the model before OR after that op (the statement's "± in-flight
 // op"; a partially applied multi-series op is accepted if the view equals the model after applying the op to
-// any subset of its series). It returns the model the view settled on (nil if none), the differences
-// against the closest candidate, and the view.
-func CheckRecovery(dir string, cfg Cfg, e Expect, n *IDNames) (settled *Model, fails []*Fail, got *View, lay string) {
+// any subset of its series). Then the probe ops are executed on the recovered index and judged after each
+// (what the restart rebuilt in memory — e.g. the partition's series-id set — only shows in how later writes
+// and drops behave). report is called once per stage ("restart", "probe:<op>") with the differences found,
+// the model in force and the file layout. It returns the model the first read settled on (the closest candidate).
+func CheckRecovery(dir string, cfg Cfg, e Expect, n *IDNames, probe string, report func(stage string, fails []*Fail, m *Model, lay string, got *View)) (settled *Model) {
 	w, err := OpenWorld(dir, cfg)
 	if err != nil {
-		return nil, []*Fail{{"Open", "recovery", "open-failed", "", err.Error()}}, nil, ""
+		report("restart", []*Fail{{"Open", "recovery", "open-failed", "", err.Error()}}, e.M, "", nil)
+		return nil
 	}
 	defer w.Close()
 	if n == nil {
 		n = NewIDNames()
 	}
 	n.Learn(w)
-	lay = layout(w)
-	got, err = ReadIndex(w, n, false)
+	lay := layout(w)
+	got, err := ReadIndex(w, n, false)
 	if err != nil {
-		return nil, []*Fail{{"Query", "recovery", "query-error", "", err.Error()}}, nil, lay
+		report("restart", []*Fail{{"Query", "recovery", "query-error", "", err.Error()}}, e.M, lay, nil)
+		return nil
 	}
 	cands := []*Model{e.M}
 	if e.InFlight != nil {
 		cands = append(cands, partials(e.M, *e.InFlight)...)
 	}
+	// the candidate with the fewest differences (none, if the view is right) is what the index settled on;
+	// the probe goes on from there even if differences were reported
 	var best []*Fail
 	for i, c := range cands {
 		f := CompareViews(got, Expected(c.Live))
-		if len(f) == 0 {
-			return c, nil, got, lay
-		}
 		if i == 0 || len(f) < len(best) {
-			best = f
+			settled, best = c, f
+		}
+		if len(f) == 0 {
+			break
 		}
 	}
-	return nil, best, got, lay
+	report("restart", best, settled, lay, got)
+	m := *settled
+	for _, op := range ProbeOps(probe) {
+		if err := w.Exec(op); err != nil {
+			report("probe:"+op.String(), []*Fail{{"Exec", "recovery", "op-error", "", err.Error()}}, &m, lay, nil)
+			return settled
+		}
+		m.Apply(op)
+		n.Learn(w)
+		got, err := ReadIndex(w, n, false)
+		if err != nil {
+			report("probe:"+op.String(), []*Fail{{"Query", "recovery", "query-error", "", err.Error()}}, &m, lay, nil)
+			return settled
+		}
+		mc := m
+		report("probe:"+op.String(), CompareViews(got, Expected(m.Live)), &mc, layout(w), got)
+	}
+	return settled
 }
 
 // partials: the models after applying op to every non-empty subset of the series it touches.
@@ -838,6 +882,13 @@ type Case struct {
 	Ops  []Op `json:"ops"`
 	Raw  bool `json:"raw,omitempty"` // diagnostics: read series sets from the Index directly instead of through tsdb.IndexSet
 	Tail bool `json:"tail"`          // after the last op: restart (recovery checker) and compare again
+	// Probe: what the recovery checker does after its first read (ProbeSingle / ProbeShared / none).
+	Probe string `json:"probe,omitempty"`
+	// Schedule part: Init is executed (and compactions awaited) before the scheduler starts; Ops is the
+	// writer thread's program; Schedule is the choice list of one execution (vrt.RunOnce).
+	Sched    bool  `json:"sched,omitempty"`
+	Init     []Op  `json:"init,omitempty"`
+	Schedule []int `json:"schedule,omitempty"`
 	// Want: the violation class this case was recorded for (a history may show several); replay reports
 	// whether exactly this class reproduces.
 	Want string `json:"want,omitempty"`
@@ -845,9 +896,10 @@ type Case struct {
 
 // Found is one violation class observed in a history (first occurrence).
 type Found struct {
-	Sig  string
-	Step int // index into Ops; len(Ops) = restart tail
-	Why  string
+	Sig   string
+	Step  int    // index into Ops; len(Ops) = restart tail
+	Stage string // tail only: "restart" or "probe:<op>"
+	Why   string
 }
 
 type runResult struct {
@@ -923,12 +975,12 @@ func runCase(base string, cs Case) (rr runResult) {
 	rr.Model = m
 	names := NewIDNames()
 	seen := map[string]bool{}
-	record := func(step int, fails []*Fail, lay string, reopened bool) {
+	record := func(step int, stage string, fails []*Fail, mm *Model, lay string, reopened bool) {
 		for _, f := range fails {
-			sg := sigOf(cs.Cfg, f, m, lay, reopened)
+			sg := sigOf(cs.Cfg, f, mm, lay, reopened)
 			if !seen[sg] {
 				seen[sg] = true
-				rr.Found = append(rr.Found, Found{sg, step, f.Why})
+				rr.Found = append(rr.Found, Found{sg, step, stage, f.Why})
 			}
 		}
 	}
@@ -954,7 +1006,7 @@ func runCase(base string, cs Case) (rr runResult) {
 			}
 			rr.Final = got
 			lay := layout(w)
-			record(st, CompareViews(got, Expected(m.Live)), lay, reopened)
+			record(st, "", CompareViews(got, Expected(m.Live)), m, lay, reopened)
 			oc := op.Kind
 			switch {
 			case before.Live == m.Live && op.Kind != OpCompact && op.Kind != OpReopen:
@@ -978,7 +1030,7 @@ func runCase(base string, cs Case) (rr runResult) {
 	}
 	if p {
 		rr.Panic = desc
-		rr.Found = append(rr.Found, Found{panicSig(cs.Cfg, desc), step, desc})
+		rr.Found = append(rr.Found, Found{panicSig(cs.Cfg, desc), step, "", desc})
 		return
 	}
 	if err != nil && rr.Harness == "" {
@@ -988,23 +1040,275 @@ func runCase(base string, cs Case) (rr runResult) {
 		return
 	}
 	p, desc = vlib.Guard(func() {
-		_, fails, got, lay := CheckRecovery(dir, cs.Cfg, Expect{M: m}, names)
-		if got != nil {
-			rr.Final = got
-			rr.States = append(rr.States, m.key()+"|"+lay)
-		}
-		record(len(cs.Ops), fails, lay, true)
+		CheckRecovery(dir, cs.Cfg, Expect{M: m}, names, cs.Probe, func(stage string, fails []*Fail, mm *Model, lay string, got *View) {
+			rr.Steps++
+			if got != nil {
+				rr.Final = got
+				rr.States = append(rr.States, mm.key()+"|"+lay)
+			}
+			for _, f := range fails {
+				if f.Group == "recovery" && f.Dir != "open-failed" {
+					rr.Harness = fmt.Sprintf("tail %s: %s: %s", stage, f.Query, f.Why)
+					return
+				}
+			}
+			record(len(cs.Ops), stage, fails, mm, lay, true)
+		})
 	})
 	if p {
 		rr.Panic = desc
-		rr.Found = append(rr.Found, Found{panicSig(cs.Cfg, desc), len(cs.Ops), desc})
+		rr.Found = append(rr.Found, Found{panicSig(cs.Cfg, desc), len(cs.Ops), "", desc})
 	}
-	rr.Steps++
 	return
 }
 
 func panicSig(cfg Cfg, desc string) string {
 	return vlib.JoinSig("panic", strings.TrimPrefix(desc[strings.LastIndex(desc, "@ ")+2:], "github.com/influxdata/influxdb/v2/"), "cfg="+cfg.Name)
+}
+
+// ---------------------------------------------------------------------------------------------------------
+// schedule part: one writer thread against the partition's own compaction goroutines (vsched engine)
+
+// CfgSched: log threshold 1, so every writing Index call rolls the active log file and starts background
+// compactions (Partition.checkLogFile -> go Compact() -> go compactLogFile / compactToLevel); nothing is
+// awaited between the writer's calls: the scheduler decides how far each compaction goroutine gets.
+var CfgSched = Cfg{Name: "sched", MaxLog: 1, PartN: 1}
+
+// schedFilter: which operations are decision points. C14_SCHED_POINTS=all|locks|wlocks (default locks):
+// locks = every Lock/RLock of partition.go / log_file.go plus the harness hooks (atomics and Once pass
+// silently: the only atomic there is the running-compactions counter that Wait() polls).
+func schedFilter(kind vrt.OpKind, label string) bool {
+	switch os.Getenv("C14_SCHED_POINTS") {
+	case "all":
+		return true
+	case "wlocks":
+		return kind == vrt.OpLock || kind == vrt.OpHook
+	}
+	return kind == vrt.OpLock || kind == vrt.OpRLock || kind == vrt.OpHook
+}
+
+// schedOut is what one execution produced.
+type schedOut struct {
+	Found   []Found
+	Harness string
+	Model   *Model
+	Final   *View
+}
+
+// schedHarness: fixture (open, init ops, settle) built unscheduled; writer thread = sc.Ops; after the
+// writer finished the scheduler is drained, all compactions are awaited, every query is compared with the
+// model of the writer's ops (sequential model: there is one writer), then the index is restarted and probed
+// (recovery checker).
+func schedHarness(base string, cs Case, out *schedOut) *vrt.Harness {
+	return &vrt.Harness{Name: "c14:" + opsString(cs.Init) + " | " + opsString(cs.Ops), Filter: schedFilter, Body: func(x *vrt.Exec) {
+		*out = schedOut{}
+		dir, err := os.MkdirTemp(base, "s")
+		if err != nil {
+			out.Harness = err.Error()
+			return
+		}
+		defer os.RemoveAll(dir)
+		m := &Model{}
+		out.Model = m
+		names := NewIDNames()
+		seen := map[string]bool{}
+		record := func(step int, stage string, fails []*Fail, mm *Model, lay string) {
+			for _, f := range fails {
+				sg := sigOf(cs.Cfg, f, mm, lay, true)
+				if !seen[sg] {
+					seen[sg] = true
+					out.Found = append(out.Found, Found{sg, step, stage, f.Why})
+				}
+			}
+		}
+		w, err := OpenWorld(dir, cs.Cfg)
+		if err != nil {
+			out.Harness = "open: " + err.Error()
+			return
+		}
+		for _, op := range cs.Init {
+			if err := w.Exec(op); err != nil {
+				out.Harness = fmt.Sprintf("init %s: %v", op, err)
+				w.Close()
+				return
+			}
+			m.Apply(op)
+			w.settle()
+		}
+		w.settle()
+		synctest.Wait() // start-up goroutines (runPeriodicCompaction's first Compact) have come to rest
+		var opErr string
+		x.Go("writer", func() {
+			for i, op := range cs.Ops {
+				vrt.Hook("op:" + op.Kind)
+				if err := w.Exec(op); err != nil {
+					opErr = fmt.Sprintf("op %d %s: %v", i, op, err)
+					return
+				}
+				m.Apply(op)
+			}
+		})
+		x.Run()
+		if x.S.Deadlock || x.S.StepCap {
+			x.S.Abort()
+			w.Close()
+			return
+		}
+		x.S.Drain()
+		if opErr != "" {
+			out.Harness = opErr
+			w.settle()
+			w.Close()
+			return
+		}
+		w.settle()
+		names.Learn(w)
+		got, err := ReadIndex(w, names, false)
+		if err != nil {
+			out.Harness = "query: " + err.Error()
+			w.Close()
+			return
+		}
+		out.Final = got
+		record(len(cs.Ops)-1, "quiescent", CompareViews(got, Expected(m.Live)), m, layout(w))
+		w.Close()
+		rcfg := cs.Cfg
+		rcfg.Settle = true
+		CheckRecovery(dir, rcfg, Expect{M: m}, names, ProbeSingle, func(stage string, fails []*Fail, mm *Model, lay string, got *View) {
+			for _, f := range fails {
+				if f.Group == "recovery" && f.Dir != "open-failed" {
+					out.Harness = fmt.Sprintf("tail %s: %s: %s", stage, f.Query, f.Why)
+					return
+				}
+			}
+			record(len(cs.Ops), stage, fails, mm, lay)
+		})
+	}}
+}
+
+// SchedAlphabet: the writer's ops (single-shard flavour).
+func SchedAlphabet() []Op {
+	return []Op{
+		{Kind: OpCreate, S: []int{0}}, {Kind: OpCreate, S: []int{2}}, {Kind: OpCreate, S: []int{0, 1, 2, 3}},
+		{Kind: OpDropS, S: []int{2}}, {Kind: OpDropM, M: "m0"},
+	}
+}
+
+// SchedInits: what the index holds (fully compacted) when the writer starts.
+func SchedInits() [][]Op {
+	return [][]Op{
+		nil,
+		{{Kind: OpCreate, S: []int{0, 1, 2, 3}}},
+		{{Kind: OpCreate, S: []int{0, 1, 2, 3}}, {Kind: OpDropS, S: []int{2}}},
+	}
+}
+
+func schedScenarios(progLen int) []Case {
+	var out []Case
+	for _, in := range SchedInits() {
+		forEachSeq(SchedAlphabet(), progLen, progLen, func(ops []Op) bool {
+			out = append(out, Case{Cfg: CfgSched, Sched: true, Init: in, Ops: ops})
+			return true
+		})
+	}
+	return out
+}
+
+// runSched explores every schedule of one scenario with <= bound preemptions. Classes that also show in the
+// preemption-free execution of the same scenario are reported under their plain signature (they are the
+// sequential classes); a class that appears only under some other schedule gets the prefix
+// "schedule-dependent/".
+func runSched(t *testing.T, c *vlib.Ctx, base string, sc Case, bound int) (complete bool) {
+	var out schedOut
+	h := schedHarness(base, sc, &out)
+	r0 := vrt.RunOnce(t, h, nil)
+	if r0.Diverged != "" {
+		c.HarnessError("sched " + h.Name + ": " + r0.Diverged)
+		return true
+	}
+	base0 := map[string]bool{}
+	for _, fd := range out.Found {
+		base0[fd.Sig] = true
+	}
+	st := vrt.Explore(t, h, bound, 0, 1, c.Expired, func(r *vrt.Result) {
+		c.Eval(1)
+		if r.Preempts > 0 {
+			c.NontrivialN(1)
+		}
+		if r.Diverged != "" {
+			c.HarnessError("sched " + h.Name + ": " + r.Diverged)
+			return
+		}
+		cs := sc
+		cs.Schedule = r.Choices
+		if r.Deadlock || r.StepCap {
+			what := "deadlock"
+			if r.StepCap {
+				what = "livelock(step cap)"
+			}
+			c.Outcome("sched:" + what)
+			cs.Want = vlib.JoinSig("sched", what)
+			c.Violation(cs.Want, fmt.Sprintf("init [%s], writer [%s]: %s: %s", opsString(sc.Init), opsString(sc.Ops), what, strings.Join(r.Blocked, "; ")), cs)
+			return
+		}
+		if out.Harness != "" {
+			c.HarnessError(fmt.Sprintf("sched init [%s] writer [%s] schedule %v: %s", opsString(sc.Init), opsString(sc.Ops), r.Choices, out.Harness))
+			return
+		}
+		if len(out.Found) == 0 && out.Final != nil {
+			c.Outcome(fmt.Sprintf("sched:end:%d-measurements/%d-live/%d-preemptions", len(out.Final.Names), liveN(out.Model), r.Preempts))
+		}
+		for _, fd := range out.Found {
+			sg := fd.Sig
+			if !base0[sg] {
+				sg = "schedule-dependent/" + sg
+			}
+			c.Outcome("FAIL:sched:" + sg[:strings.LastIndex(sg, "/")])
+			cs.Want = sg
+			c.Violation(sg, fmt.Sprintf("schedule part: init [%s], writer [%s], %d preemptions, final %s: %s", opsString(sc.Init), opsString(sc.Ops), r.Preempts, fd.Stage, fd.Why), cs)
+		}
+		if c.WantSample() && r.Preempts == bound && len(out.Found) == 0 {
+			c.Sample(map[string]any{"part": "schedules", "init": opsString(sc.Init), "writer": opsString(sc.Ops), "schedule": r.Choices, "preemptions": r.Preempts})
+		}
+	})
+	c.StateN(st.Nodes)
+	c.Transition(st.Transitions)
+	c.Trace(st.Executions)
+	return st.Complete
+}
+
+// replaySched re-executes one recorded schedule.
+func replaySched(t *testing.T, cs Case) (bool, string) {
+	base := vlib.Scratch("c14s-")
+	defer os.RemoveAll(base)
+	var out schedOut
+	h := schedHarness(base, cs, &out)
+	r0 := vrt.RunOnce(t, h, nil)
+	base0 := map[string]bool{}
+	for _, fd := range out.Found {
+		base0[fd.Sig] = true
+	}
+	r := vrt.RunOnce(t, h, cs.Schedule)
+	obs := fmt.Sprintf("schedule part: init=[%s] writer=[%s] schedule=%v", opsString(cs.Init), opsString(cs.Ops), cs.Schedule)
+	if r.Diverged != "" || r0.Diverged != "" {
+		return false, obs + " -> diverged: " + r.Diverged + r0.Diverged
+	}
+	if r.Deadlock || r.StepCap {
+		return strings.HasPrefix(cs.Want, "sched/"), obs + fmt.Sprintf(" -> deadlock=%v stepcap=%v blocked=%v", r.Deadlock, r.StepCap, r.Blocked)
+	}
+	if out.Harness != "" {
+		return false, obs + " -> harness problem: " + out.Harness
+	}
+	for _, fd := range out.Found {
+		sg := fd.Sig
+		if !base0[sg] {
+			sg = "schedule-dependent/" + sg
+		}
+		if sg == cs.Want || cs.Want == "" {
+			return true, obs + fmt.Sprintf(" -> %s: %s [%s]", fd.Stage, fd.Why, sg)
+		}
+	}
+	return false, obs + fmt.Sprintf(" -> class %q not reproduced", cs.Want)
 }
 
 // ---------------------------------------------------------------------------------------------------------
@@ -1094,6 +1398,13 @@ type family struct {
 	maxLen   int
 }
 
+func (f family) probe() string {
+	if strings.HasPrefix(f.name, "shared") {
+		return ProbeShared
+	}
+	return ProbeSingle
+}
+
 func envInt(name string, def int) int {
 	if s := os.Getenv(name); s != "" {
 		if v, err := strconv.Atoi(s); err == nil {
@@ -1106,6 +1417,9 @@ func envInt(name string, def int) int {
 // families in visiting order (simplest first). A "core"/deep family starts at the length where the full
 // alphabet of the same configuration stops (its alphabet is a subset of the full one).
 func families(thorough bool) []family {
+	if os.Getenv("C14_ONLY_SCHED") != "" {
+		return nil
+	}
 	if d := envInt("C14_DEPTH", -1); d >= 0 {
 		return []family{{"explicit", CfgExplicit, FullAlphabet(true), 0, d}, {"auto", CfgAuto, FullAlphabet(false), 0, d}, {"mid", CfgMid, FullAlphabet(false), 0, d},
 			{"shared-explicit", CfgExplicit, SharedAlphabet(true), 0, d}, {"shared-auto", CfgAuto, SharedAlphabet(false), 0, d}}
@@ -1137,18 +1451,21 @@ func families(thorough bool) []family {
 
 func TestCheck(t *testing.T) {
 	vlib.Main(t, &vlib.Check{
-		ID: "C14", Level: "model_checking", QuickBudgetS: 45, ThoroughBudgetS: 780, WorkerEnv: []string{"GOMAXPROCS=2"},
+		ID: "C14", Level: "model_checking", QuickBudgetS: 45, ThoroughBudgetS: 780, WorkerEnv: []string{"GOMAXPROCS=1"},
 		Rule: "every op sequence within the stated length bounds, each executed from scratch on a real tsi1.Index on a real tsdb.SeriesFile in a fresh directory, over a universe of 6 series (S0 m0,a=x; S1 m0,a=y; S2 m0,a=x,b=x; S3 m0,b=y; S4 m1,a=x; S5 m1,a=y,b=x: 2 measurements x 2 tag keys x 2 values; S2 is the only holder of m0.b=x). " +
 			"Ops: create{S0},{S2},{S4},{S0..S3},{S0..S5} (Index.CreateSeriesListIfNotExists); dropS S0|S2|S4 = the engine's series delete in a single-shard database (Index.DropSeries(id,key,false), DropMeasurementIfSeriesNotExist, SeriesFile.DeleteSeriesID); dropM m0 = the engine's measurement delete (the same for every series of m0); dropMd m0|m1 = Index.DropMeasurement called directly, then the series ids deleted from the series file; reopen = Index.Close, SeriesFile.Close, SeriesFile.Open, Index.Open; compact = forced log compaction at the step boundary (log threshold 1 on every partition, Index.Compact()+Wait() until no partition needs compaction: log -> L1, L1+L1 -> L2, ..., threshold restored). " +
 			"Configurations: explicit (default 1 MiB log threshold, 1 partition: files change only at compact ops), auto (threshold 1, 1 partition: every op's log file is rolled and compacted at once, awaited after every Index call), mid (threshold 40 bytes, 2 partitions: rolls after ~3 entries, awaited). " +
 			"Families in visiting order — quick: explicit full 13-op alphabet length <=2; auto and mid (12 ops, no explicit compact) <=2; shared-explicit <=3 and shared-auto <=2 over {create{S0},{S0..S3}, dropI S0|S2|{S0..S3} = the engine's series delete when another shard still holds the series (no SeriesFile.DeleteSeriesID, a re-creation gets the same id), reopen, compact}; explicit-core length exactly 3 over the 8-op m0-only alphabet {create{S0},{S2},{S0..S3}, dropS S2, dropM m0, dropMd m0, reopen, compact}. Thorough: explicit/auto/mid full <=3, shared-explicit <=4, shared-auto <=4, explicit/auto/mid core =4, explicit full =4, shared-explicit =5, explicit-core =5. " +
-			"After EVERY Index op and after a final restart every metadata query is compared with the view of the model's live series: MeasurementIterator, MeasurementExists(m); TagKeyIterator(m), HasTagKey(m,k); TagValueIterator(m,k), HasTagValue(m,k,v) on the Index; MeasurementSeriesIDIterator(m), TagKeySeriesIDIterator(m,k), TagValueSeriesIDIterator(m,k,v) through tsdb.IndexSet{index, series file} (ids mapped back to series) for both measurements, both keys, both values (also for measurements/keys/values that no longer exist: expected empty/false). A history is executed to its end; every distinct violation class it shows is recorded. " +
-			"State = model state (per series live / dropped-but-still-in-series-file / absent) + file layout per partition (log empty/non-empty, index file levels); transition = one executed op; trace = one complete history validated on the implementation. Non-trivial = histories containing a create (distinct by construction). Crash images and schedules are NOT part of this run.",
+			"After EVERY op, after a final restart, and after each of three probe ops on the restarted index (create all 6 series; engine delete of m0; of m1 — index-only drops in the shared families) every metadata query is compared with the view of the model's live series: MeasurementIterator, MeasurementExists(m); TagKeyIterator(m), HasTagKey(m,k); TagValueIterator(m,k), HasTagValue(m,k,v) on the Index; MeasurementSeriesIDIterator(m), TagKeySeriesIDIterator(m,k), TagValueSeriesIDIterator(m,k,v) through tsdb.IndexSet{index, series file} (ids mapped back to series) for both measurements, both keys, both values (also for measurements/keys/values that no longer exist: expected empty/false). A history is executed to its end; every distinct violation class it shows is recorded. " +
+			"State = model state (per series live / dropped-but-still-in-series-file / absent) + file layout per partition (log empty/non-empty, index file levels); transition = one executed op; trace = one complete history validated on the implementation. Non-trivial = histories containing a create (distinct by construction), executions with >= 1 preemption. " +
+			"SCHEDULE PART (thorough tier only, with the wall budget the sequential families leave; the evidence names the phase it stopped in): log threshold 1, 1 partition, nothing awaited between calls; initial index content in {empty, create{S0..S3}, create{S0..S3}+dropS S2} (fully compacted), ONE writer thread running every program of length 1 (then 2) over {create{S0},{S2},{S0..S3}, dropS S2, dropM m0} against the partition's own goroutines (checkLogFile -> go Compact -> go compactLogFile / compactToLevel, manifest swap, file removal), which are started by the writer's calls; phases: every schedule with 0 preemptions (all orders of goroutines at blocking points), then <= 1 preemption for length 1, then <= 1 for length 2, at every Lock/RLock of tsi1/partition.go and tsi1/log_file.go (vsched: baton passing inside a synctest bubble; atomics/Once pass silently). When the writer has finished, all compactions are awaited and every query is compared with the writer's model; then restart + probe as above. A class seen only under a schedule other than the preemption-free one is reported as schedule-dependent/<class>; deadlock and step-cap are violations. For the schedule part states = decision nodes of the schedule trees, transitions = scheduling steps, traces = executions. " +
+			"Crash images are NOT part of this run.",
 		Assumptions: []string{
 			"series sets are read through tsdb.IndexSet (the reader every consumer of a shard's index uses), which removes ids the series file reports as deleted; the raw Index iterators are known to keep such ids by design (Case.Raw reads them for diagnosis only)",
 			"a series drop is the engine's call sequence (tsm1.Engine.deleteSeriesRange): DropSeries(cascade=false) + DropMeasurementIfSeriesNotExist + SeriesFile.DeleteSeriesID; the dropI ops omit the last call exactly as the engine does when another shard of the database still contains the series",
 			"after every Index call in the auto/mid configurations the harness waits until no compaction is running or pending (sequential part: compaction only at step boundaries); explicit compaction is forced by lowering the partition's log threshold through a test-only setter (overlay export_verif_c14.go)",
 			"names, keys and values are compared as sets (a duplicate is reported as extra); order is not judged",
+			"schedule part: sequentially consistent interleavings at sync/atomic granularity of partition.go and log_file.go only (index.go, index_file.go, the series file keep the real sync package and run atomically between two points); queries are made at quiescence only (no reader thread), one writer",
 			"the tag-value series-id cache of the Index is warm (every step queries every tag value), as on a server that answers queries between writes",
 		},
 		Run: func(c *vlib.Ctx) {
@@ -1167,7 +1484,7 @@ func TestCheck(t *testing.T) {
 						capped = true
 						return false
 					}
-					cs := Case{Cfg: fam.cfg, Ops: ops, Tail: true}
+					cs := Case{Cfg: fam.cfg, Ops: ops, Tail: true, Probe: fam.probe()}
 					rr := runCase(base, cs)
 					c.Eval(1)
 					c.Trace(1)
@@ -1201,7 +1518,7 @@ func TestCheck(t *testing.T) {
 					for _, fd := range rr.Found {
 						c.Outcome("FAIL:" + fd.Sig[:strings.LastIndex(fd.Sig, "/")])
 						cs.Want = fd.Sig
-						where := fmt.Sprintf("after step %d (%s)", fd.Step, "restart")
+						where := fmt.Sprintf("after step %d (final %s)", fd.Step, fd.Stage)
 						if fd.Step < len(ops) {
 							where = fmt.Sprintf("after step %d (%s)", fd.Step, ops[fd.Step])
 						}
@@ -1211,7 +1528,31 @@ func TestCheck(t *testing.T) {
 				})
 				if capped {
 					c.Cap(fmt.Sprintf("budget expired inside family %s (lengths %d..%d); all earlier families of the list are complete, this one for all shorter lengths", fam.name, fam.minLen, fam.maxLen))
-					break
+					return
+				}
+			}
+			// schedule part: phases of (writer program length, preemption bound), simplest first
+			type phase struct{ progLen, bound int }
+			var phases []phase // quick tier: sequential part only
+			if c.Thorough() {
+				phases = []phase{{1, 0}, {1, 1}, {2, 1}}
+			}
+			if l := envInt("C14_SCHED_LEN", 0); l > 0 {
+				phases = []phase{{l, envInt("C14_SCHED_BOUND", 1)}}
+			}
+			for pi, ph := range phases {
+				scs := schedScenarios(ph.progLen)
+				for si, sc := range scs {
+					if !c.Mine(int64(si)) {
+						continue
+					}
+					if c.Expired() || !runSched(t, c, base, sc, ph.bound) {
+						c.Cap(fmt.Sprintf("budget expired in the schedule part, phase %d of %d (writer programs of length %d, preemption bound %d); the sequential families and the earlier schedule phases are complete", pi+1, len(phases), ph.progLen, ph.bound))
+						return
+					}
+				}
+				if c.Shard == 0 {
+					c.Extra(fmt.Sprintf("sched_scenarios_len%d_bound%d", ph.progLen, ph.bound), int64(len(scs)))
 				}
 			}
 		},
@@ -1220,6 +1561,9 @@ func TestCheck(t *testing.T) {
 			if err := json.Unmarshal(raw, &cs); err != nil {
 				return false, err.Error()
 			}
+			if cs.Sched {
+				return replaySched(t, cs)
+			}
 			base := vlib.Scratch("c14r-")
 			defer os.RemoveAll(base)
 			rr := runCase(base, cs)
@@ -1227,9 +1571,15 @@ func TestCheck(t *testing.T) {
 			if rr.Harness != "" {
 				return false, obs + " -> harness problem: " + rr.Harness
 			}
+			if cs.Want == "" && len(rr.Found) > 0 { // hand-written case: report every class seen
+				for _, fd := range rr.Found {
+					obs += fmt.Sprintf("\n  step %d %s: %s [%s]", fd.Step, fd.Stage, fd.Why, fd.Sig)
+				}
+				return true, obs
+			}
 			for _, fd := range rr.Found {
-				if cs.Want == "" || fd.Sig == cs.Want {
-					return true, obs + fmt.Sprintf(" -> step %d: %s [%s]", fd.Step, fd.Why, fd.Sig)
+				if fd.Sig == cs.Want {
+					return true, obs + fmt.Sprintf(" -> step %d %s: %s [%s]", fd.Step, fd.Stage, fd.Why, fd.Sig)
 				}
 			}
 			var other []string
